@@ -398,6 +398,10 @@ class BuiltinsMixin:
             if name == "copy":
                 return self.new_container(VSet(r.key, r.dom))
         if isinstance(r, VMap):
+            if name == "put" and self.spec_mode:
+                return r.put(args[0], args[1])
+            if name == "without" and self.spec_mode:
+                return r.remove(args[0])
             if name == "get":
                 k = args[0]
                 default = args[1] if len(args) > 1 else NONE
